@@ -83,9 +83,10 @@ Definition C15_round_ok (fps : list Z) (obs : list cobs) (cls off : Z) : bool :=
            && match ftm (map ob_value parts) with Some m => off =? m | None => false end).
 
 (* ---- single draws and samples (crypto.RandIntn, crypto.Sample) ---- *)
-(* a draw below n: the value is a residue of the word that was accepted *)
-Definition C15_intn_ok (n : Z) (last_word : Z) (v : Z) : bool :=
-  (0 <=? v) && (v <? Z.max n 1) && (if n <? 2 then v =? 0 else v =? last_word mod n).
+(* a draw below n >= 2 is made from the generator's output: at least one read, and the value is the
+   residue of the word read last (the accepted one) *)
+Definition C15_intn_ok (n : Z) (last_word : Z) (reads : Z) (v : Z) : bool :=
+  (0 <=? v) && (v <? Z.max n 1) && (if n <? 2 then v =? 0 else (1 <=? reads) && (v =? last_word mod n)).
 
 (* Sample(k, n): min(k, n) slots are filled, from distinct candidates *)
 Fixpoint apply_picks (res : list Z) (picks : list (Z * Z)) : list Z :=
@@ -96,9 +97,11 @@ Fixpoint apply_picks (res : list Z) (picks : list (Z * Z)) : list Z :=
                        (combine (map Z.of_nat (seq 0 (length res))) res)) r
   end.
 
-Definition C15_sample_ok (k n : Z) (k' : Z) (picks : list (Z * Z)) : bool :=
+(* the candidates k'.. n-1 beyond the first one each take a draw *)
+Definition C15_sample_ok (k n : Z) (k' : Z) (picks : list (Z * Z)) (reads : Z) : bool :=
   let res := apply_picks (repeat (-1) (Z.to_nat k')) picks in
   (k' =? Z.min k n)
+  && (n - Z.max k' 1 <=? reads)
   && forallb (fun p : Z * Z => (0 <=? fst p) && (fst p <? k') && (0 <=? snd p) && (snd p <? n)) picks
   && forallb (fun s => 0 <=? s) res
   && znodupb res.
